@@ -205,6 +205,13 @@ def _mk(sim, variant=None):
         IE = Models.InElastic
         s = Simulations.InElastic(mesh, IE.Behavior(2, Models.Elastic.Isotropic(3, E=3.0, v=0.25), yieldSurface=IE.Yield.VonMises(0.003), hardening=IE.IsotropicHardening.Linear(0.4),
                                                     kinematic=IE.KinematicHardening.ArmstrongFrederick(0.6, 5.0)))
+    elif sim == "WeakForms":
+        from EasyFEA.FEM import Field
+        from contracts._wf_forms import computeK, computeC, computeM
+        coords, connect = patches.star_patch("TRI3")
+        mesh = patches.real_mesh("TRI3", coords, connect)
+        field = Field(mesh.groupElem, 1)
+        s = Simulations.WeakForms(mesh, Models.WeakForms(field, computeK, computeC, computeM))
     else:
         raise ValueError(sim)
     from EasyFEA import SolverType
@@ -218,7 +225,7 @@ def _bc(s, sim, k):
     xmin, xmax = co[:, 0].min(), co[:, 0].max()
     n0 = np.where(np.isclose(co[:, 0], xmin))[0]
     n1 = np.where(np.isclose(co[:, 0], xmax))[0]
-    if sim not in ("Thermal", "Beam") and (len(n0) < 2 or len(n1) < 2):
+    if sim not in ("Thermal", "Beam", "WeakForms") and (len(n0) < 2 or len(n1) < 2):
         # sheared patches have a single left-most / right-most node: take the left and right quarter so that the loads really strain the patch
         W = xmax - xmin
         n0 = np.where(co[:, 0] <= xmin + 0.3 * W)[0]
@@ -227,6 +234,9 @@ def _bc(s, sim, k):
     if sim == "Thermal":
         s.add_dirichlet(n0, [0.0], ["t"])
         s.add_dirichlet(n1, [1.0 + k], ["t"])
+    elif sim == "WeakForms":
+        s.add_dirichlet(n0, [0.0], ["u"])
+        s.add_dirichlet(n1, [1.0 + k], ["u"])
     elif sim == "Beam":
         s.add_dirichlet(n0, [0, 0, 0], ["x", "y", "rz"])
         s.add_neumann(n1, [-0.01 * (k + 1)], ["y"])
@@ -337,7 +347,9 @@ def ob_roundtrip(sim, mode, dynamic, variant=None):
         s = _mk(sim, variant)
         if mode in ("disk", "switch"):
             s.folder = os.path.join(tmp, "A")
-        if dynamic == "parabolic" and sim != "Thermal":
+        if dynamic == "parabolic" and sim == "WeakForms":
+            s.Solver_Set_Parabolic_Algorithm(dt=0.1, alpha=0.5)
+        elif dynamic == "parabolic" and sim != "Thermal":
             # a first-order scheme on a damped mechanical problem: the speed is carried from step to step
             s.Set_Rayleigh_Damping_Coefs(coefM=0.0, coefK=0.2)
             s.Solver_Set_Parabolic_Algorithm(dt=0.1, alpha=0.5)
@@ -358,7 +370,7 @@ def ob_roundtrip(sim, mode, dynamic, variant=None):
             saved_results.append(_deep_results(s, k))
             s.Need_Update()                      # the system of the state just saved, assembled afresh
             saved_mats.append(_mats(s))
-            name = "displacement" if sim != "Thermal" else "thermal"
+            name = {"Thermal": "thermal", "WeakForms": "u"}.get(sim, "displacement")
             named.append(np.asarray(s.Result(name)).copy())
             if mode == "switch" and k == 0:
                 s.folder = os.path.join(tmp, "B")       # later changes of the folder must not disturb earlier entries
@@ -421,7 +433,7 @@ def ob_roundtrip(sim, mode, dynamic, variant=None):
                 raise Refuted(f"{sim}/{mode}{'/dynamic' if dynamic else ''}: after Set_Iter({i}) the state differs from the state current when iteration {i} was saved ({why})",
                               cex=dict(history=hist + [f"Set_Iter({i})"], field=why), signature=f"roundtrip:{sim}:{'dyn' if dynamic else 'static'}:restore:{why.split(':')[0]}",
                               replay=dict(confirmed=True, detail=why))
-            name = "displacement" if sim != "Thermal" else "thermal"
+            name = {"Thermal": "thermal", "WeakForms": "u"}.get(sim, "displacement")
             got = np.asarray(s.Result(name, iter=i))
             if not np.array_equal(got, named[i]):
                 raise Refuted(f"{sim}/{mode}: Result('{name}', iter={i}) differs from the value obtained at save time", cex=dict(history=hist),
@@ -745,7 +757,7 @@ def ob_save_histories(case):
     return Verdict(DISCHARGED, backend="native run (exact equality)")
 
 
-DYNAMIC = {"Elastic": True, "Thermal": True, "Beam": True, "HyperElastic": False, "PhaseField": False, "InElastic": False}
+DYNAMIC = {"WeakForms": True, "Elastic": True, "Thermal": True, "Beam": True, "HyperElastic": False, "PhaseField": False, "InElastic": False}
 
 
 def build(tier, seed):
@@ -756,14 +768,14 @@ def build(tier, seed):
     for sim in SIMS:
         obs.append(Ob(f"C15.keys.{sim}", ob_keys, (sim,), "E", (f"{SIMS[sim]}::{sim}.Save_Iter", f"{SIMS[sim]}::{sim}.Set_Iter"),
                       clause="every key Set_Iter reads is written by Save_Iter"))
-    sims = ["Elastic", "Thermal", "Beam", "PhaseField", "InElastic", "HyperElastic"]
+    sims = ["Elastic", "Thermal", "Beam", "PhaseField", "InElastic", "HyperElastic", "WeakForms"]
     for sim in sims:
         modes = ["memory", "switch"] if tier == "quick" else ["memory", "disk", "switch"]
         for mode in modes:
             obs.append(Ob(f"C15.roundtrip.{sim}.{mode}", ob_roundtrip, (sim, mode, False), "X", (f"{SIMS[sim]}::{sim}.Save_Iter", f"{SIMS[sim]}::{sim}.Set_Iter", f"{SIMU}::_Simu.Get_results"),
                           bound="3 solve/save steps on a small mesh, one folder schedule", clause="restore / read / stored-iteration immutability", timeout=300))
-        if sim == "Elastic":
-            obs.append(Ob("C15.roundtrip.Elastic.parabolic", ob_roundtrip, (sim, "memory", "parabolic"), "X", (f"{SIMS[sim]}::{sim}.Save_Iter", f"{SIMS[sim]}::{sim}.Set_Iter"),
+        if sim in ("Elastic", "WeakForms"):
+            obs.append(Ob(f"C15.roundtrip.{sim}.parabolic", ob_roundtrip, (sim, "memory", "parabolic"), "X", (f"{SIMS[sim]}::{sim}.Save_Iter", f"{SIMS[sim]}::{sim}.Set_Iter"),
                           bound="3 steps of the theta scheme on a damped elastic problem, in-memory history", clause="the speed carried by a first-order scheme is restored with the displacement", timeout=300))
         if sim == "PhaseField":
             for variant in ("HistoryDamage", "BoundConstrain"):
@@ -801,5 +813,5 @@ def build(tier, seed):
         assumptions=["histories bounded to 3 steps per simulation type, one mesh per history (several meshes in one history not covered)", "MPI_SIZE == 1"],
         functions=functions,
         dropped=["E-tier reads the AST only"],
-        not_attempted=["WeakForms / DIC simulations in the dynamic histories", "Mesh.Save / Load_Mesh"],
+        not_attempted=["DIC simulations in the dynamic histories"],
     )
